@@ -531,6 +531,42 @@ theorem C17_wake_is_run (dec : Bytes → Option V) (c : Cfg) (s : WState) (rs : 
       · rw [wake]; simp [h, h2, run_cons]
       · rw [wake]; simp [h, h3, run_cons]
 
+/-! ### Lost events: the overflow error re-synchronises -/
+
+/-- **A watcher error wakes the loop into a read.**  When the kernel's inotify queue overflows, events — possibly the one
+for the last change of the config — are lost and fsnotify delivers `ErrEventOverflow` on its Errors channel instead.
+That arm of the select falls through to the read (F15e2: nothing in it leaves the select but the closed-channel exit), so
+the turn of the loop is a full wake-up over the next reads: the file is read again although no event named it. -/
+theorem C17_error_wakes_reread (dec : Bytes → Option V) (c : Cfg) (s : WState) (rs : List IterRead) :
+    selectArm c s.resolved .error = .pass ∧
+    loopTurn dec c s .error rs = ((wake dec c s rs).1, (wake dec c s rs).2.1, (wake dec c s rs).2.2, true) := by
+  have h : selectArm c s.resolved .error = .pass := by simp [selectArm, Facts.watchErrorsFallThrough]
+  exact ⟨h, by simp [loopTurn, h]⟩
+
+/-- …and therefore an overflow is repaired: after ANY history, a turn of the loop woken by the error whose pass read the
+final content `b` (which decodes to `v`) leaves `v` as the last reported value — the same conclusion as
+`C17_converges_ok`, with the lost event replaced by the error.  Environment assumption (PARTIAL): the kernel/fsnotify
+does deliver the overflow error after events were dropped. -/
+theorem C17_overflow_resync (dec : Bytes → Option V) (c : Cfg) (s : WState) (v0 : V) (rs : List IterRead) (r : IterRead)
+    (b : Bytes) (v : V) (hinv : SumInv dec s.lastSum v0) (hr : r.val = .content b) (hd : dec b = some v)
+    (hsettled : rereadAfter c (run dec c s rs).1 r = false) :
+    lastReported v0 ((run dec c s rs).2 ++ (loopTurn dec c (run dec c s rs).1 .error [r]).2.1) = v := by
+  rw [(C17_error_wakes_reread dec c (run dec c s rs).1 [r]).2, C17_no_reread_otherwise dec c _ r [] hsettled]
+  have := C17_converges_ok dec c s v0 rs r b v hinv hr hd
+  rw [run_append, run_single] at this
+  exact this
+
+/-- The other arms: ticker and Reload fall through to the read, an event does exactly when its name passes the filter,
+a closed channel or a done context ends the loop (whose deferred calls close the watcher). -/
+theorem C17_select_arms (c : Cfg) (resolved : Path) (n : Path) :
+    selectArm c resolved .tick = .pass ∧ selectArm c resolved .reload = .pass ∧
+    (selectArm c resolved (.event n) = .pass ↔ eventPasses c resolved n = true) ∧
+    selectArm c resolved .ctxDone = .exit ∧ selectArm c resolved .eventsClosed = .exit ∧
+    selectArm c resolved .errorsClosed = .exit := by
+  refine ⟨by simp [selectArm, Facts.watchTickReloadFallThrough], by simp [selectArm, Facts.watchTickReloadFallThrough], ?_,
+    by simp [selectArm, Facts.watchLoopReturnsOnCtxDone], rfl, rfl⟩
+  cases h : eventPasses c resolved n <;> simp [selectArm, h]
+
 /-! ### Events (the filter in front of an iteration) -/
 
 /-- Events named after the config path (the file's own watch; in-place writes and rename-overs seen through
@@ -581,7 +617,8 @@ theorem C17_facts :
     Facts.watchArmNil = 1 ∧ Facts.watchArmUnchanged = 0 ∧ Facts.watchArmSyscall = 3 ∧ Facts.watchArmDefault = 2 ∧
     Facts.watchEventFilterCodes = [0, 1, 2, 3, 5, 4] ∧
     Facts.k8sIntermediateSymlinkDirChars = ['.', '.', 'd', 'a', 't', 'a'] ∧ Facts.legacyIntermediateSymlinkDirChars = ['.', '.', 'd', 'i', 'r'] ∧
-    Facts.watchWakesOnAll = true ∧ Facts.watchLoopReturnsOnCtxDone = true ∧
+    Facts.watchWakesOnAll = true ∧ Facts.watchErrorsFallThrough = true ∧ Facts.watchTickReloadFallThrough = true ∧
+    Facts.watchLoopReturnsOnCtxDone = true ∧
     Facts.watchLoopDefersClose = true ∧ Facts.watchLoopDefersWGDoneFirst = true ∧
     Facts.watchSetupComplete = true := by
   decide
